@@ -127,6 +127,11 @@ def gen_select_cases(rng, n):
             sel = ['re', rng.pick([names[0].replace('+', '\\+'), 'sales.2020', 'a.b', 'a.*', 'sales.*', 'a\\+', '.*2020'])]
         cases.append({'kind': 'pkgselect', 'names': names, 'sel': sel, 'how': rng.pick(['dp', 'tuple']),
                       'nrows': [rng.randint(0, 3) for _ in names]})
+    # systematically: list selectors that name the resources in another order than the package holds them, and twice
+    for how in ('dp', 'tuple'):
+        names = ['people', 'cities', 'rivers']
+        for sel in (['rivers', 'people'], ['rivers', 'cities', 'people'], ['cities', 'people'], ['people', 'people', 'rivers']):
+            cases.append({'kind': 'pkgselect', 'names': names, 'sel': ['list', sel], 'how': how, 'nrows': [2, 3, 1]})
     return cases
 
 
@@ -170,7 +175,8 @@ def run_livepair(case):
         try:
             with quiet():
                 ds = Flow(*live_links(case['flow'], d)).datastream()
-                rows, dp, _ = Flow(Load((ds.dp.descriptor, ds.res_iter), resources=sel)).results()
+                # (the selector lists the names in reverse: a list selects the listed names, in the order of the package)
+                rows, dp, _ = Flow(Load((ds.dp.descriptor, ds.res_iter), resources=list(reversed(sel)))).results()
         except Exception as e:
             c = e
             while type(c).__name__ == 'ProcessorError' and getattr(c, 'cause', None) is not None:
